@@ -3,7 +3,8 @@ import fcntl, hashlib, json, os, re, shutil, subprocess, sys, time
 
 ROOT = os.path.dirname(os.path.dirname(os.path.abspath(__file__)))
 LEAN = os.path.join(ROOT, "lean")
-HARNESS = os.path.join(ROOT, "harness")
+HARNESS = os.environ.get("VERIF_HARNESS_DIR") or os.path.join(ROOT, "harness")
+OUT = os.environ.get("VERIF_OUT") or ROOT      # work/, evidence/, replays/ live here (mutation runs redirect it)
 REPO = "/repo"
 ALLOWED_AXIOMS = {"propext", "Classical.choice", "Quot.sound"}
 FORBIDDEN = [r"\bsorry\b", r"\badmit\b", r"^\s*axiom\s", r"\bnative_decide\b", r"\bbv_decide\b",
@@ -100,7 +101,7 @@ def lean_audit(prop_module):
     """#print axioms for every theorem of the Props module; returns (axioms_by_theorem, n_examples, problems)"""
     path = os.path.join(LEAN, prop_module.replace(".", "/") + ".lean")
     names, examples = theorems_of(path)
-    audit_dir = os.path.join(ROOT, "work", "audit")
+    audit_dir = os.path.join(OUT, "work", "audit")
     os.makedirs(audit_dir, exist_ok=True)
     audit = os.path.join(audit_dir, prop_module.split(".")[-1] + "_audit.lean")
     with open(audit, "w") as f:
@@ -216,10 +217,10 @@ def ddmin(items, failing, keep_first=1):
 
 
 def save_replay(prop, lines, suffix="ops"):
-    os.makedirs(os.path.join(ROOT, "replays"), exist_ok=True)
+    os.makedirs(os.path.join(OUT, "replays"), exist_ok=True)
     text = "\n".join(lines) + "\n"
     h = hashlib.sha1(text.encode()).hexdigest()[:10]
-    path = os.path.join(ROOT, "replays", "%s-%s.%s" % (prop, h, suffix))
+    path = os.path.join(OUT, "replays", "%s-%s.%s" % (prop, h, suffix))
     with open(path, "w") as f: f.write(text)
     return path
 
@@ -263,8 +264,8 @@ class Report:
               "violations": len(self.violations)}
         if self.notes: ev["coverage"]["notes"] = self.notes
         if self.known_hits: ev["coverage"]["known_findings_reproduced"] = self.known_hits
-        os.makedirs(os.path.join(ROOT, "evidence"), exist_ok=True)
-        with open(os.path.join(ROOT, "evidence", self.prop + ".json"), "w") as f:
+        os.makedirs(os.path.join(OUT, "evidence"), exist_ok=True)
+        with open(os.path.join(OUT, "evidence", self.prop + ".json"), "w") as f:
             json.dump(ev, f, indent=1, sort_keys=True)
         for e in known_findings(self.prop):
             hit = self.known_hits.get(e["signature"], 0)
